@@ -164,10 +164,13 @@ def cas_is_zero(expr, symbols=(), seconds=40, seed=0):
     worst = None
     nz = 0
     n_eval = 0
-    for _ in range(60):
+    for it in range(90):
         vals = {}
+        # moderate magnitudes first, then corners (very small / very large positive values: clamps, cut-offs and
+        # piecewise definitions show only there)
+        pool = [0.05, 0.3, 0.7, 1.3, 2.9, 7.5] if it < 60 else [1e-6, 1e-4, 1e-3, 1e-2, 30.0, 1e3, 1e5]
         for s in free:
-            vals[s] = sp.Float(rnd.choice([0.05, 0.3, 0.7, 1.3, 2.9, 7.5]) * rnd.uniform(0.5, 1.5), 50) if s.is_positive \
+            vals[s] = sp.Float(rnd.choice(pool if (it < 60 or rnd.random() < 0.5) else [0.3, 1.3, 2.9]) * rnd.uniform(0.5, 1.5), 50) if s.is_positive \
                 else sp.Float(rnd.uniform(-2, 2), 50)
         try:
             v = sp.N(e.subs(vals), 40)
